@@ -20,45 +20,9 @@
 (* ABSTRACT clauses:  Concat(lines) = s,  no empty line,  termination        *)
 (* (Variant decreases).  CONCRETE: one action per branch of the while loop.  *)
 (***************************************************************************)
-EXTENDS Naturals, Integers, Sequences, FiniteSets, TLC
+EXTENDS StrSplitFn, TLC
 
 CONSTANTS MaxStrLen, MaxMaxLen, Alphabet
-
-QS == "single"
-QD == "double"
-
-IsWs(c) == c \in {2, 3}
-IsWord(c, bytes) == c = 1 \/ (c = 7 /\ ~bytes)
-EscW(c, q, bytes) ==
-  CASE c \in {1, 2, 9, 10} -> 1
-    [] c \in {3, 6} -> 2
-    [] c = 4 -> IF q = QS THEN 2 ELSE 1
-    [] c = 5 -> IF q = QD THEN 2 ELSE 1
-    [] c = 7 -> IF bytes THEN 4 ELSE 1
-    [] c = 8 -> 4
-
-RECURSIVE EscLen(_, _, _)
-EscLen(str, q, bytes) == IF Len(str) = 0 THEN 0 ELSE EscW(Head(str), q, bytes) + EscLen(Tail(str), q, bytes)
-
-\* re.split with one capturing group: alternating non-separator / separator runs,
-\* starting (and ending) with a possibly empty non-separator run
-RECURSIVE SplitRuns(_, _, _, _, _)
-SplitRuns(str, i, sepSet, cur, acc) ==
-  IF i > Len(str) THEN Append(acc, cur)
-  ELSE LET c == str[i]
-           inSep == Len(acc) % 2 = 1        \* we are inside a separator run
-       IN IF (c \in sepSet) = inSep THEN SplitRuns(str, i + 1, sepSet, Append(cur, c), acc)
-          ELSE SplitRuns(str, i + 1, sepSet, <<c>>, Append(acc, cur))
-
-WsSet == {2, 3}
-NonWordSet(bytes) == {c \in 1..10 : ~IsWord(c, bytes)}
-Parts(str, bytes, path) ==
-  IF path THEN SplitRuns(str, 1, {10}, <<>>, <<>>)
-  ELSE IF \E i \in 1..Len(str) : IsWs(str[i]) THEN SplitRuns(str, 1, WsSet, <<>>, <<>>)
-  ELSE SplitRuns(str, 1, NonWordSet(bytes), <<>>, <<>>)
-
-RECURSIVE Concat(_)
-Concat(ss) == IF Len(ss) = 0 THEN <<>> ELSE Head(ss) \o Concat(Tail(ss))
 
 -----------------------------------------------------------------------------
 VARIABLES s, bytes, path, q, maxLen,     \* inputs
@@ -138,6 +102,8 @@ RestParts(ps, i) == IF i > Len(ps) THEN <<>> ELSE ps[i] \o RestParts(ps, i + 1)
 Conservation == pc \in {"fetch", "branch"} => (Concat(lines) \o cur) \o (np \o RestParts(parts, pi)) = s
 Result == pc = "done" => Concat(lines) = s
 NoEmptyPiece == \A i \in 1..Len(lines) : Len(lines[i]) > 0
+\* the state machine and the function StrSplitFn!Lines (used by Printers.tla) agree
+FnAgrees == pc = "done" => lines = Lines(s, bytes, path, q, maxLen)
 \* the accumulated line never reaches max_len before the decision
 Bounded == pc \in {"fetch", "branch"} => clen < maxLen /\ clen = EscLen(cur, q, bytes)
 
